@@ -81,6 +81,13 @@ pub fn run_case_r(script: &Script, path: &str, step: usize, fault: Option<Fault>
 /// `rollback_first`: right after the failed commit a write transaction is begun and abandoned
 /// (and a read-only one is opened and closed) before the follow-up commits.
 pub fn run_case_x(script: &Script, path: &str, step: usize, fault: Option<Fault>, second: Option<(usize, Fault)>, with_reader: bool, rollback_first: bool) -> CaseOut {
+    run_case_y(script, path, step, fault, second, with_reader, rollback_first, 0)
+}
+
+/// `extras` bit 0: a reader is opened right after the failed commit and kept over the follow-ups
+/// (it must stay frozen); bit 1: one more follow-up that needs more than one growth step (9.5 MB).
+#[allow(clippy::too_many_arguments)]
+pub fn run_case_y(script: &Script, path: &str, step: usize, fault: Option<Fault>, second: Option<(usize, Fault)>, with_reader: bool, rollback_first: bool, extras: u8) -> CaseOut {
     let mut out = CaseOut { kinds: vec![], violations: vec![], outcome: "none" };
     let mut r = match Runner::new(path, script.cfg.clone()) {
         Ok(r) => r,
@@ -110,7 +117,9 @@ pub fn run_case_x(script: &Script, path: &str, step: usize, fault: Option<Fault>
     if r.poisoned {
         return out;
     }
-    let full = Oracles { rets: true, dump_after: true, fileck: true, dbcheck: true, reopen_copy: true, readers_frozen: with_reader, ..Oracles::NONE };
+    let reader_between = extras & 1 != 0;
+    let huge_followup = extras & 2 != 0;
+    let full = Oracles { rets: true, dump_after: true, fileck: true, dbcheck: true, reopen_copy: true, readers_frozen: with_reader || reader_between, ..Oracles::NONE };
     if fault.is_none() {
         out.outcome = "no-fault";
         return out;
@@ -154,6 +163,12 @@ pub fn run_case_x(script: &Script, path: &str, step: usize, fault: Option<Fault>
     } else {
         out.outcome = "ok-despite-fault";
     }
+    if reader_between {
+        for mut x in r.step(&Action::OpenReader, &Oracles::NONE) {
+            x.class = format!("reader_after_failure:{}", x.class);
+            out.violations.push(x);
+        }
+    }
     if rollback_first {
         let drop_tx = Action::Tx { ops: vec![OpSpec::bucket("goc", &[], "fu"), OpSpec::put(&["fu"], "abandoned", "w*300"), OpSpec::put(&["fu"], "abandoned2", "x*1500")], commit: false };
         for mut x in r.step(&drop_tx, &full) {
@@ -163,6 +178,25 @@ pub fn run_case_x(script: &Script, path: &str, step: usize, fault: Option<Fault>
         for mut x in r.step(&Action::RoTx { ops: vec![] }, &full) {
             x.class = format!("reader_after_failure:{}", x.class);
             out.violations.push(x);
+        }
+        if r.poisoned {
+            return out;
+        }
+    }
+    // (first, if asked for: a commit crossing more than one growth step directly after the failure,
+    // before any smaller commit has had the chance to map the file again)
+    if huge_followup && !r.poisoned {
+        let v = r.step(&Action::Tx { ops: vec![OpSpec::bucket("goc", &[], "fu"), OpSpec::put(&["fu"], "huge", "H*9500000")], commit: true }, &full);
+        for mut x in v {
+            x.class = format!("followup_huge:{}", x.class);
+            x.detail = format!("a follow-up commit that needs more than one 8 MiB growth step, after the failed commit (outcome {}): {}", out.outcome, x.detail);
+            out.violations.push(x);
+        }
+        if !r.poisoned {
+            for mut x in r.step(&Action::RoTx { ops: vec![] }, &full) {
+                x.class = format!("followup_huge:{}", x.class);
+                out.violations.push(x);
+            }
         }
         if r.poisoned {
             return out;
@@ -207,7 +241,7 @@ pub fn run_case_x(script: &Script, path: &str, step: usize, fault: Option<Fault>
         }
     }
     // and after reopening
-    if with_reader {
+    if with_reader || reader_between {
         for mut x in r.step(&Action::CloseReader(0), &Oracles::NONE) {
             x.class = format!("close_reader:{}", x.class);
             out.violations.push(x);
@@ -317,6 +351,14 @@ pub fn worker(idx: usize) {
                             viols.push(json!([ci, k.name(), mname, format!("with_reader:{}", v.class), format!("(a reader opened before the failing commit is kept open) {}", v.detail), "reader"]));
                         }
                     }
+                    if *k == Kind::Mmap || *k == Kind::Fallocate || *k == Kind::Ftruncate {
+                        // a failed growth step, then a commit that needs more than one step
+                        cases += 1;
+                        let outh = run_case_y(sc, &path2, step, Some(f), None, false, false, 2);
+                        for v in outh.violations {
+                            viols.push(json!([ci, k.name(), mname, format!("with_huge_followup:{}", v.class), v.detail, "huge"]));
+                        }
+                    }
                     // a second fault in a follow-up commit.  thorough: in the large second follow-up at
                     // each of its first 24 calls; every tier: after a first fault that hit a sync (the
                     // commits that may be half through), in the first and in the second follow-up
@@ -339,6 +381,14 @@ pub fn worker(idx: usize) {
                             let out2 = run_case(sc, &path2, step, Some(f), Some((which, f2)));
                             for v in out2.violations {
                                 viols.push(json!([ci, k.name(), mname, v.class, v.detail, cj + 1000 * (which + 1)]));
+                            }
+                            if *k == Kind::Fsync && which == 0 && sc.cfg.num_pages >= 64 {
+                                // the same with a reader opened between the two failures
+                                cases += 1;
+                                let out3 = run_case_y(sc, &path2, step, Some(f), Some((which, f2)), false, false, 1);
+                                for v in out3.violations {
+                                    viols.push(json!([ci, k.name(), mname, format!("reader_between_failures:{}", v.class), v.detail, cj + 1000 * (which + 1) + 100_000]));
+                                }
                             }
                         }
                     }
@@ -452,6 +502,7 @@ pub fn replay(v: &Value) -> i32 {
     let second = v["second"].as_u64();
     let with_reader = v["second"].as_str() == Some("reader");
     let rollback_first = v["second"].as_str() == Some("rollback");
+    let v_second_is_huge = v["second"].as_str() == Some("huge");
     let r = crate::fresh::on_fresh_thread(move || {
         let scs = scripts(tier);
         let sc = &scs[si];
@@ -466,7 +517,10 @@ pub fn replay(v: &Value) -> i32 {
             }
         };
         let f = Fault::at(call, mode);
-        let out = run_case_x(sc, &path, step, Some(f), second.map(|cj| if cj >= 1000 { ((cj / 1000 - 1) as usize, Fault::at(cj % 1000, FaultMode::Errno(libc::EIO))) } else { (1usize, Fault::at(cj, FaultMode::Errno(libc::EIO))) }), with_reader, rollback_first);
+        let huge = v_second_is_huge;
+        let reader_between = second.map(|cj| cj >= 100_000).unwrap_or(false);
+        let second = second.map(|cj| cj % 100_000);
+        let out = run_case_y(sc, &path, step, Some(f), second.map(|cj| if cj >= 1000 { ((cj / 1000 - 1) as usize, Fault::at(cj % 1000, FaultMode::Errno(libc::EIO))) } else { (1usize, Fault::at(cj, FaultMode::Errno(libc::EIO))) }), with_reader, rollback_first, (reader_between as u8) | ((huge as u8) << 1));
         println!("outcome of the failed commit: {}", out.outcome);
         for x in &out.violations {
             println!("   !! {}: {}", x.class, x.detail);
